@@ -56,6 +56,23 @@ def _func(src, name, cls=None):
     return T._find_func(scope, name)
 
 
+def _norm(fn):
+    """a copy of `fn` whose local variables are alpha-renamed v0, v1, ... in order of first binding
+    (pyexpr.local_names; parameters keep their names): structure checks on it do not depend on how locals are called"""
+    import copy
+
+    fn2 = copy.deepcopy(fn)
+    mapping = {n: f"v{i}" for i, n in enumerate(pyexpr.local_names(fn2))}
+    return pyexpr._Renamer(mapping).visit(fn2)
+
+
+def _msg(txt):
+    """exception MESSAGE texts are not part of a skeleton"""
+    import re
+
+    return re.sub(r"raise (\w+)\((['\"]).*?\2\)", r"raise \1(<msg>)", txt)
+
+
 def _stmts(fn):
     return [s for s in fn.body
             if not (isinstance(s, ast.Expr) and isinstance(s.value, ast.Constant) and isinstance(s.value.value, str))]
@@ -114,9 +131,9 @@ CELL_GETSTATE_SKELETON = [
 
 def _cell_getstate():
     """(has_dict, slots iterable text, emptied keys)"""
-    fn = _func(CELL, "__getstate__", "Cell")
+    fn = _norm(_func(CELL, "__getstate__", "Cell"))
     sts = _stmts(fn)
-    if len(sts) < 2 or not isinstance(sts[0], ast.Assign) or ast.unparse(sts[0].targets[0]) != "state" \
+    if len(sts) < 2 or not isinstance(sts[0], ast.Assign) or ast.unparse(sts[0].targets[0]) != "v0" \
             or not (isinstance(sts[0].value, ast.Tuple) and len(sts[0].value.elts) == 2):
         raise T.Broken("Cell.__getstate__: expected `state = (<dict>, {<slots>})` first")
     d, s = sts[0].value.elts
@@ -137,7 +154,7 @@ def _cell_getstate():
     emptied = []
     for st in sts[1:-1]:
         ok = (isinstance(st, ast.Assign) and isinstance(st.targets[0], ast.Subscript)
-              and ast.unparse(st.targets[0].value) == "state[1]" and isinstance(st.targets[0].slice, ast.Constant)
+              and ast.unparse(st.targets[0].value) == "v0[1]" and isinstance(st.targets[0].slice, ast.Constant)
               and ast.unparse(st.value) == "{}")
         if not ok:
             raise T.Broken(f"Cell.__getstate__: unexpected statement {ast.unparse(st)[:60]!r}")
@@ -145,7 +162,7 @@ def _cell_getstate():
         if key not in SLOT:
             raise T.Broken(f"Cell.__getstate__ empties an unknown slot {key!r}")
         emptied.append(SLOT[key])
-    if ast.unparse(sts[-1]) != "return state":
+    if ast.unparse(sts[-1]) != "return v0":
         raise T.Broken("Cell.__getstate__ does not end with `return state`")
     return has_dict, emptied
 
@@ -157,31 +174,55 @@ def c_cell_state():
             "Definition gen_c19_cell_emptied : list Z := [" + "; ".join(map(str, emptied)) + "].")
 
 
+ADD_AGENT_SKELETON = [
+    "v0 = len(self._agents)",
+    "self.empty = False",
+    "if self.capacity and v0 >= self.capacity:\n    raise Exception(<msg>)",
+    "self._agents.append(agent)",
+]
+REMOVE_AGENT_SKELETON = ["self._agents.remove(agent)", "self.empty = self.is_empty"]
+
+
+def c_cell_add_remove():
+    """Cell.add_agent / remove_agent as transcribed by Model/Copy.v:add_agent / remove_agent (count, `empty` write BEFORE
+    the capacity test, append;  remove, `empty` write) - modulo local names, the message text, docstrings, comments"""
+    for name, want in (("add_agent", ADD_AGENT_SKELETON), ("remove_agent", REMOVE_AGENT_SKELETON)):
+        fn = _norm(_func(CELL, name, "Cell"))
+        if [a.arg for a in fn.args.args] != ["self", "agent"]:
+            raise T.Broken(f"Cell.{name}: unexpected parameters")
+        got = [_msg(ast.unparse(st)) for st in _stmts(fn)]
+        if got != want:
+            diff = [f"{a!r} != {b!r}" for a, b in zip(got, want) if a != b] or [f"{len(got)} statements, expected {len(want)}"]
+            raise T.Broken(f"statement skeleton of Cell.{name} changed: " + diff[0][:200])
+    return "Definition gen_c19_cell_add_remove_skeleton_ok : bool := true."
+
+
 # ------------------------------------------------------------------ grid.py: the copyreg hook
+# skeletons are compared modulo the names of local variables (v0, v1, ... in order of first binding), docstrings, comments
 PICKLE_SKELETON = [
-    "_, slots = obj.__getstate__()",
-    "slots = <filtered slots>",
-    "return (unpickle_gridcell, (obj.__class__.__bases__[0],), (<dict part>, slots))",
+    "v0, v1 = obj.__getstate__()",
+    "v1 = <filtered slots>",
+    "return (unpickle_gridcell, (obj.__class__.__bases__[0],), (<dict part>, v1))",
 ]
 UNPICKLE_SKELETON = [
-    "cell_klass = type('GridCell', (parent,), {'_mesa_properties': set()})",
-    "instance = cell_klass.__new__(cell_klass)",
-    "if fields is not None:\n    for k, v in fields[1].items():\n        if <legacy filter>:\n            setattr(instance, k, v)",
-    "return instance",
+    "v0 = type('GridCell', (parent,), {'_mesa_properties': set()})",
+    "v1 = v0.__new__(v0)",
+    "if fields is not None:\n    for v2, v3 in fields[1].items():\n        if <legacy filter>:\n            setattr(v1, v2, v3)",
+    "return v1",
 ]
 
 
 def _pickle_parts():
-    fn = _func(GRID, "pickle_gridcell")
+    fn = _norm(_func(GRID, "pickle_gridcell"))
     sts = _stmts(fn)
     if [a.arg for a in fn.args.args] != ["obj"] or len(sts) != 3:
         raise T.Broken("pickle_gridcell: expected (obj) and three statements")
     if ast.unparse(sts[0]) != PICKLE_SKELETON[0]:
         raise T.Broken("pickle_gridcell: first statement changed: " + ast.unparse(sts[0])[:80])
-    if not (isinstance(sts[1], ast.Assign) and ast.unparse(sts[1].targets[0]) == "slots"):
+    if not (isinstance(sts[1], ast.Assign) and ast.unparse(sts[1].targets[0]) == "v1"):
         raise T.Broken("pickle_gridcell: expected `slots = {...}`")
     src, keeps = _dictcomp_filter(sts[1].value, SLOT, "pickle_gridcell")
-    if src != "slots":
+    if src != "v1":
         raise T.Broken("pickle_gridcell filters something else than the slots state")
     r = sts[2]
     if not (isinstance(r, ast.Return) and isinstance(r.value, ast.Tuple) and len(r.value.elts) == 3
@@ -190,7 +231,7 @@ def _pickle_parts():
     d = r.value.elts[2].elts[0]
     if isinstance(d, ast.Constant) and d.value is None:
         has_dict = False
-    elif isinstance(d, ast.Name) and d.id == "_":
+    elif isinstance(d, ast.Name) and d.id == "v0":
         has_dict = True
     else:
         raise T.Broken("pickle_gridcell: dict part of the state is neither None nor the __getstate__ dict")
@@ -209,13 +250,14 @@ def c_gridcell_pickle():
 
 
 def c_gridcell_unpickle():
-    fn = _func(GRID, "unpickle_gridcell")
+    fn = _norm(_func(GRID, "unpickle_gridcell"))
     sts = _stmts(fn)
     if [a.arg for a in fn.args.args] != ["parent", "fields"] or len(sts) != 4:
         raise T.Broken("unpickle_gridcell: expected (parent, fields=None) and four statements")
     legacy = sts[2]
     try:
         inner = legacy.body[0].body[0]
+        kvar = legacy.body[0].target.elts[0].id
         cond = inner.test
         got = [ast.unparse(sts[0]), ast.unparse(sts[1]), None, ast.unparse(sts[3])]
         inner.test = ast.Name(id="LEGACY", ctx=ast.Load())
@@ -229,19 +271,19 @@ def c_gridcell_unpickle():
         c = Tr(SLOT).bexpr(cond)
     except pyexpr.Unsupported as e:
         raise T.Broken(f"unpickle_gridcell: legacy filter outside the translated subset: {e}") from None
-    return (f"Definition gen_c19_gridcell_legacy_keeps : Z -> bool := fun k : Z => {c}.\n"
+    return (f"Definition gen_c19_gridcell_legacy_keeps : Z -> bool := fun {kvar} : Z => {c}.\n"
             "Definition gen_c19_gridcell_reduce_skeleton_ok : bool := true.")
 
 
 # ------------------------------------------------------------------ grid.py: Grid.__getstate__ / __setstate__
 def c_grid_getstate():
-    fn = _func(GRID, "__getstate__", "Grid")
+    fn = _norm(_func(GRID, "__getstate__", "Grid"))
     sts = _stmts(fn)
-    if len(sts) != 3 or ast.unparse(sts[0]) != "state = super().__getstate__()" or ast.unparse(sts[2]) != "return state" \
-            or not (isinstance(sts[1], ast.Assign) and ast.unparse(sts[1].targets[0]) == "state"):
+    if len(sts) != 3 or ast.unparse(sts[0]) != "v0 = super().__getstate__()" or ast.unparse(sts[2]) != "return v0" \
+            or not (isinstance(sts[1], ast.Assign) and ast.unparse(sts[1].targets[0]) == "v0"):
         raise T.Broken("Grid.__getstate__: expected state = super().__getstate__(); state = {...}; return state")
     src, keeps = _dictcomp_filter(sts[1].value, ATTR, "Grid.__getstate__")
-    if src != "state":
+    if src != "v0":
         raise T.Broken("Grid.__getstate__ filters something else than the state")
     return f"Definition gen_c19_grid_state_keeps : Z -> bool := {keeps}."
 
@@ -257,7 +299,7 @@ SETSTATE_SKELETON = [
 
 
 def _setstate_loops():
-    fn = _func(GRID, "__setstate__", "Grid")
+    fn = _norm(_func(GRID, "__setstate__", "Grid"))
     sts = _stmts(fn)
     if [a.arg for a in fn.args.args] != ["self", "state"]:
         raise T.Broken("Grid.__setstate__: unexpected parameters")
@@ -358,7 +400,7 @@ def c_dspace_setstate():
     names = [n.name for n in cls.body if isinstance(n, ast.FunctionDef)]
     if "__getstate__" in names or "__reduce__" in names or "__reduce_ex__" in names or "__deepcopy__" in names:
         raise T.Broken("DiscreteSpace defines its own __getstate__/__reduce__/__deepcopy__: the copy model assumes the default")
-    fn = T._find_func(cls, "__setstate__")
+    fn = _norm(T._find_func(cls, "__setstate__"))
     got = [ast.unparse(s) for s in _stmts(fn)]
     want = ["self.__dict__ = state", "self._connect_cells()"]
     if got != want:
@@ -369,7 +411,7 @@ def c_dspace_setstate():
 # ------------------------------------------------------------------ agent.py
 def c_agentset():
     cls = T._find_class(T._parse(AGENT), "AgentSet")
-    gs = _stmts(T._find_func(cls, "__getstate__"))
+    gs = _stmts(_norm(T._find_func(cls, "__getstate__")))
     if len(gs) != 1 or not (isinstance(gs[0], ast.Return) and isinstance(gs[0].value, ast.Dict)):
         raise T.Broken("AgentSet.__getstate__: expected a single `return {...}`")
     d = {k.value: v for k, v in zip(gs[0].value.keys, gs[0].value.values) if isinstance(k, ast.Constant)}
@@ -383,10 +425,10 @@ def c_agentset():
         members = "(rev ms)"
     else:
         raise T.Broken(f"AgentSet.__getstate__: member list {src!r} is outside the translated subset")
-    ss = [ast.unparse(s) for s in _stmts(T._find_func(cls, "__setstate__"))]
+    ss = [ast.unparse(s) for s in _stmts(_norm(T._find_func(cls, "__setstate__")))]
     if sorted(ss) != sorted(["self.random = state['random']", "self._update(state['agents'])"]):
         raise T.Broken(f"AgentSet.__setstate__ changed: {ss}")
-    up = _stmts(T._find_func(cls, "_update"))
+    up = _stmts(_norm(T._find_func(cls, "_update")))
     if len(up) != 2 or ast.unparse(up[1]) != "return self" or not isinstance(up[0], ast.Assign) \
             or ast.unparse(up[0].targets[0]) != "self._agents":
         raise T.Broken("AgentSet._update: expected `self._agents = ...; return self`")
@@ -409,6 +451,7 @@ CONSTRUCTS = [
     ("c19_cell_getstate", CELL, c_cell_state,
      lambda: "Definition gen_c19_cell_state_has_dict : bool := false.\nDefinition gen_c19_cell_state_slots : list Z := [].\n"
              "Definition gen_c19_cell_emptied : list Z := []."),
+    ("c19_cell_add_remove", CELL, c_cell_add_remove, lambda: "Definition gen_c19_cell_add_remove_skeleton_ok : bool := false."),
     ("c19_gridcell_pickle", GRID, c_gridcell_pickle,
      lambda: "Definition gen_c19_gridcell_keeps : Z -> bool := fun _ => false.\nDefinition gen_c19_gridcell_state_has_dict : bool := true."),
     ("c19_gridcell_unpickle", GRID, c_gridcell_unpickle,
